@@ -2186,3 +2186,169 @@ func concatOperands(v ssa.Value) []ssa.Value {
 	}
 	return []ssa.Value{v}
 }
+
+// goCaptureRule: a goroutine started from a function literal must not capture
+// (by reference) a variable that its creator assigns again after the `go`
+// statement can have run - the classic loop-variable capture: under the
+// module's language version (go 1.18 in go.mod: one variable per loop, not per
+// iteration) every goroutine then reads whatever the variable holds when it
+// gets to run, not the value of its own iteration.
+func goCaptureRule(r *Report, rels ...string) {
+	n := 0
+	for _, f := range r.W.Funcs(rels...) {
+		g := G(f)
+		for _, in := range instrs(f) {
+			gs, ok := in.(*ssa.Go)
+			if !ok {
+				continue
+			}
+			mc, ok := gs.Call.Value.(*ssa.MakeClosure)
+			if !ok {
+				continue
+			}
+			n++
+			r.Touch(f)
+			bad := ""
+			var pos token.Pos
+			for k, b := range mc.Bindings {
+				a, isA := b.(*ssa.Alloc)
+				if !isA {
+					continue
+				}
+				for _, st := range storesTo(a) {
+					if st.Parent() != f {
+						continue
+					}
+					if p := g.PathTo([]ssa.Instruction{gs}, false, nil, func(i ssa.Instruction) bool { return i == ssa.Instruction(st) }); p != nil {
+						name := a.Comment
+						if fn, isFn := mc.Fn.(*ssa.Function); isFn && k < len(fn.FreeVars) {
+							name = fn.FreeVars[k].Name()
+						}
+						bad = name
+						pos = st.Pos()
+					}
+				}
+			}
+			r.Decide("flow", fmt.Sprintf("%s: goroutine literal #%d captures nothing its creator assigns afterwards", fnName(f), ordinalGo(f, gs)), bad == "", "every variable shared with the goroutine keeps its value once the goroutine exists", fmt.Sprintf("the goroutine captures %q, which the creating function assigns again after the go statement (the next loop iteration): goroutines read each other's values (frames delivered to the wrong subscriber, or several times)", bad), pos)
+		}
+	}
+	if n == 0 {
+		r.Note("goroutine capture: no goroutine literal in %v", rels)
+	}
+}
+
+func ordinalGo(f *ssa.Function, g *ssa.Go) int {
+	n := 0
+	for _, in := range instrs(f) {
+		if x, ok := in.(*ssa.Go); ok {
+			n++
+			if x == g {
+				return n
+			}
+		}
+	}
+	return 0
+}
+
+// lastIndexRule: an index expression of the form x[len(x)-k] (the "last
+// element" idiom) on a string or slice panics when x is shorter than k; with no
+// recover around the connection goroutine (or the TLS handshake callbacks) that
+// ends the process. Every such index must be dominated by a test that excludes
+// the short lengths: a comparison of len(x) with a constant, x != "" / x == ""
+// on the other edge, or a range/loop bound that implies it.
+func lastIndexRule(r *Report, rels ...string) {
+	n := 0
+	for _, f := range r.W.Funcs(rels...) {
+		for _, in := range instrs(f) {
+			var base, idx ssa.Value
+			switch x := in.(type) {
+			case *ssa.Lookup:
+				if _, isMap := x.X.Type().Underlying().(*types.Map); isMap {
+					continue
+				}
+				base, idx = x.X, x.Index
+			case *ssa.IndexAddr:
+				base, idx = x.X, x.Index
+			case *ssa.Index:
+				base, idx = x.X, x.Index
+			default:
+				continue
+			}
+			sub, ok := idx.(*ssa.BinOp)
+			if !ok || sub.Op != token.SUB {
+				continue
+			}
+			k, isK := constInt(sub.Y)
+			lc, isC := sub.X.(*ssa.Call)
+			if !isK || !isC || k < 1 {
+				continue
+			}
+			bi, isB := lc.Call.Value.(*ssa.Builtin)
+			if !isB || bi.Name() != "len" {
+				continue
+			}
+			same := func(a, b ssa.Value) bool {
+				return a == b || (pathOf(a) != "" && pathOf(a) == pathOf(b))
+			}
+			if !same(lc.Call.Args[0], base) {
+				continue
+			}
+			n++
+			r.Touch(f)
+			isLen := func(v ssa.Value) bool {
+				c, y := v.(*ssa.Call)
+				if !y {
+					return false
+				}
+				b, y := c.Call.Value.(*ssa.Builtin)
+				return y && b.Name() == "len" && same(c.Call.Args[0], base)
+			}
+			guarded := false
+			// strings.Split returns at least one element
+			if k == 1 {
+				for _, l := range resolveAll(base) {
+					if isCallValue(l, "strings.Split", "strings.SplitAfter", "bytes.Split") {
+						guarded = true
+					} else {
+						guarded = false
+						break
+					}
+				}
+			}
+			for _, ce := range ctrlEdges(in.Block()) {
+				// len(x) op const: must not admit any length below k
+				rel := false
+				admitsShort := false
+				for short := int64(0); short < k; short++ {
+					if rl, adm := constCmpAdmits(ce, isLen, short); rl {
+						rel = true
+						if adm {
+							admitsShort = true
+						}
+					}
+				}
+				if rel && !admitsShort {
+					guarded = true
+				}
+				// x != "" (k == 1)
+				if b, y := ce.If.Cond.(*ssa.BinOp); y && k == 1 && (b.Op == token.EQL || b.Op == token.NEQ) {
+					s1, c1 := constString(b.X)
+					s2, c2 := constString(b.Y)
+					other := b.X
+					if c1 && s1 == "" {
+						other = b.Y
+					} else if !(c2 && s2 == "") {
+						continue
+					}
+					if same(other, base) && (b.Op == token.NEQ) == ce.Taken {
+						guarded = true
+					}
+				}
+			}
+			r.Decide("path", fmt.Sprintf("%s: index len(x)-%d #%d is guarded against short x", fnName(f), k, n), guarded, "dominated by a test that excludes lengths below the offset", fmt.Sprintf("x[len(x)-%d] is evaluated without a dominating test that x is long enough: for an empty (short) x the index is out of range and the panic, which nothing recovers, ends the proxy process", k), in.Pos())
+		}
+	}
+	if n == 0 {
+		r.Hold("path", fmt.Sprintf("last-element indexing in %v", rels), "no x[len(x)-k] expression")
+	}
+}
